@@ -10,7 +10,7 @@ CHECKS = {
    "bounded-exhaustive program x configuration x input x tape enumeration on the real compile+evaluate pipeline"),
  "C02": ("model_checking", "3.C02",
    "Exploration of the three-party execution of the real compiled graph (executor E1): each party evaluates every node with its own SimpleEvaluator on only its own data, junk for non-owned inputs/share slots from a junk alphabet, values cross parties only at Send-annotated nodes, failures are poison; every output party must end with the plaintext result, shared outputs must be neighbour-consistent and reconstruct.",
-   "Execution rules are the runtime's documented ones; party schedules are not explored (dataflow program); executor bound to the library by conformance replays (global walker == Evaluator::evaluate_graph, three-party walker with full knowledge == global walker).",
+   "Execution rules are the runtime's documented ones; party schedules are not explored (dataflow program); both tiers execute the program space of C01's quick tier (thorough: every owner vector and output list of it, more inputs, full junk alphabet); executor bound to the library by conformance replays (global walker == Evaluator::evaluate_graph, three-party walker with full knowledge == global walker).",
    "explicit exploration of three-party protocol executions of the real compiled graph over junk/seed/owner/output alphabets"),
  "C03": ("model_checking", "3.C03",
    "Exhaustive enumeration of the protocol's random-tape space with the PRF idealised as a table of independent uniform entries, on the real compiled graph in three-party execution: for every observer the exact multiset of complete views over all tapes must be identical for any two other-party input vectors with equal observer inputs/output (perfect privacy) - bit-typed multiplicative protocols and 8-bit linear protocols.",
